@@ -65,7 +65,7 @@ def valStr : Val → Sexp
 def q (s : String) : Sexp := .atom ("\"" ++ s ++ "\"")
 
 def userName : Nat → String
-  | 0 => "ValueError" | 1 => "KeyError" | 2 => "ZeroDivisionError" | n => "User" ++ toString n
+  | 0 => "ValueError" | 1 => "KeyError" | 2 => "ZeroDivisionError" | 3 => "UserBase" | n => "User" ++ toString n
 
 def excStr : Exc → Sexp
   | .genExit => .list [.atom "exc", .atom "GeneratorExit"]
